@@ -18,10 +18,12 @@ var sniffFormats = []sniffFormat{
 	spdxSniff{},
 }
 
-var state = make(map[string]sniffState, len(sniffFormats))
+// sniffStates is the scratch state of one line-based detection run, keyed by
+// format. It belongs to a single SniffReader call.
+type sniffStates map[string]sniffState
 
 type sniffFormat interface {
-	sniff(data []byte) Format
+	sniff(state sniffStates, data []byte) Format
 }
 
 type Sniffer struct{}
@@ -102,9 +104,9 @@ func (fs *Sniffer) SniffReader(f io.ReadSeeker) (Format, error) {
 
 	var format Format
 
-	initSniffState()
+	state := newSniffStates()
 	for fileScanner.Scan() {
-		format = fs.sniff(fileScanner.Bytes())
+		format = fs.sniff(state, fileScanner.Bytes())
 
 		if format != EmptyFormat {
 			break
@@ -119,9 +121,9 @@ func (fs *Sniffer) SniffReader(f io.ReadSeeker) (Format, error) {
 	return "", fmt.Errorf("unknown SBOM format")
 }
 
-func (fs *Sniffer) sniff(data []byte) Format {
+func (fs *Sniffer) sniff(state sniffStates, data []byte) Format {
 	for _, sniffer := range sniffFormats {
-		format := sniffer.sniff(data)
+		format := sniffer.sniff(state, data)
 		if format != EmptyFormat {
 			return format
 		}
@@ -145,7 +147,7 @@ func (st *sniffState) Format() Format {
 
 type cdxSniff struct{}
 
-func (c cdxSniff) sniff(data []byte) Format {
+func (c cdxSniff) sniff(_ sniffStates, _ []byte) Format {
 	// protobom only supports CDX formats as JSON
 	//  we are parsing the JSON in SniffReader by decoding to the SpecVersionStruct
 	//   removing all the previous JSON-related string matching from this function
@@ -157,8 +159,8 @@ func (c cdxSniff) sniff(data []byte) Format {
 
 type spdxSniff struct{}
 
-func (c spdxSniff) sniff(data []byte) Format {
-	state := getSniffState(SPDXFORMAT)
+func (c spdxSniff) sniff(states sniffStates, data []byte) Format {
+	state := states.get(SPDXFORMAT)
 
 	stringValue := string(data)
 
@@ -181,23 +183,23 @@ func (c spdxSniff) sniff(data []byte) Format {
 	// A quoted version string on some other line says nothing about a
 	// tag-value document, so it is not combined with an SPDXVersion tag.
 
-	setSniffState(SPDXFORMAT, state)
+	states.set(SPDXFORMAT, state)
 	return state.Format()
 }
 
-func initSniffState() {
-	state = make(map[string]sniffState, len(sniffFormats))
+func newSniffStates() sniffStates {
+	return make(sniffStates, len(sniffFormats))
 }
 
-func getSniffState(t string) sniffState {
-	dm, ok := state[t]
+func (states sniffStates) get(t string) sniffState {
+	dm, ok := states[t]
 	if !ok {
-		state[t] = sniffState{}
-		return state[t]
+		states[t] = sniffState{}
+		return states[t]
 	}
 	return dm
 }
 
-func setSniffState(t string, snifferState sniffState) {
-	state[t] = snifferState
+func (states sniffStates) set(t string, snifferState sniffState) {
+	states[t] = snifferState
 }
